@@ -91,7 +91,11 @@ func ruleStreamConfigPlumbing(c *eng.Ctx, only ...string) {
 						if vfa, isV := r.(*ssa.FieldAddr); isV && eng.FieldNameOf(vfa) == "Value" && vfa.Referrers() != nil {
 							for _, rr := range *vfa.Referrers() {
 								if vs, isVS := rr.(*ssa.Store); isVS && derivesFromValueOf(vs.Val, s.proto, eng.Param("req"), 0) {
-									ok = true
+									// ... on the branch where the request carries the setting
+									present := eng.CmpEdges(gs, eng.LoadNamed(s.proto, eng.Param("req")), eng.NilConst, eng.NE)
+									if g, _ := eng.GuardedBy(gs, st, present); g && len(present) > 0 {
+										ok = true
+									}
 								}
 							}
 						}
@@ -113,6 +117,10 @@ func ruleStreamConfigPlumbing(c *eng.Ctx, only ...string) {
 					return
 				}
 				if derivesFromValueOf(st.Val, s.proto, eng.Param("c"), 0) {
+					present := eng.CmpEdges(ao, eng.LoadNamed(s.proto, eng.Param("c")), eng.NilConst, eng.NE)
+					if g, _ := eng.GuardedBy(ao, st, present); !g || len(present) == 0 {
+						return // applied on the branch where the override is absent: not an application
+					}
 					if eng.FieldNameOf(fa) == s.cfg {
 						ok = true
 					} else {
